@@ -65,6 +65,8 @@ def rand_nfa_def(rng, nmax=5, alphabet=None, names=None, p_eps=None):
     """Random NFA definition: epsilon edges and cycles, states without a row, empty target
     sets, unreachable parts."""
     sigma = alphabet if alphabet is not None else rand_alphabet(rng)
+    if p_eps is None and names is None and nmax >= 3 and rng.random() < 0.3:
+        return rand_nfa_eps_rich(rng, nmax=nmax, alphabet=sigma)
     n = rng.randint(1, nmax)
     if names is None:
         names, _ = pick_names(rng, n)
@@ -143,3 +145,55 @@ def rand_dfa_with_dead(rng, alphabet=None, nlive=None, ndead=None, partial=None)
     finals = {q for q in live if rng.random() < 0.5} or {rng.choice(live)}
     return dict(states=set(names), input_symbols=set(sigma), transitions=trans, initial_state=live[0],
                 final_states=finals, allow_partial=partial)
+
+
+def rand_nfa_eps_rich(rng, nmax=6, alphabet=None):
+    """NFA whose empty-string edges form long cycles, chains, diamonds and chords (closure
+    computations that share or memoise partial results go wrong on exactly these), with sparse
+    symbol edges so that the closure decides acceptance."""
+    sigma = alphabet if alphabet is not None else rand_alphabet(rng)
+    n = rng.randint(3, max(3, nmax))
+    names, _ = pick_names(rng, n)
+    order = names[:]
+    rng.shuffle(order)
+    eps = {q: set() for q in names}
+    shape = rng.choice(["ring", "ring", "chain", "two_rings", "diamond"])
+    k = rng.randint(3, n)
+    if shape == "ring":
+        for i in range(k):
+            eps[order[i]].add(order[(i + 1) % k])
+    elif shape == "chain":
+        for i in range(k - 1):
+            eps[order[i]].add(order[i + 1])
+        if rng.random() < 0.5:
+            eps[order[k - 1]].add(order[rng.randrange(k - 1)])
+    elif shape == "two_rings":
+        h = max(2, k // 2)
+        for i in range(h):
+            eps[order[i]].add(order[(i + 1) % h])
+        rest = order[h - 1:k]
+        for i in range(len(rest)):
+            eps[rest[i]].add(rest[(i + 1) % len(rest)])
+    else:
+        for q in order[1:k - 1]:
+            eps[order[0]].add(q)
+            eps[q].add(order[k - 1])
+        if rng.random() < 0.5:
+            eps[order[k - 1]].add(order[0])
+    for _ in range(rng.randint(0, 2)):
+        eps[rng.choice(names)].add(rng.choice(names))
+    trans = {}
+    for q in names:
+        row = {}
+        for a in sigma:
+            if rng.random() < 0.35:
+                row[a] = {rng.choice(names) for _ in range(rng.choice([1, 1, 2]))}
+        if eps[q]:
+            row[""] = set(eps[q])
+        if row or rng.random() < 0.7 or q == names[0]:
+            trans[q] = row
+    finals = {q for q in names if rng.random() < 0.3} or {rng.choice(names)}
+    init = rng.choice(names)
+    trans.setdefault(init, {})
+    return dict(states=set(names), input_symbols=set(sigma), transitions=trans,
+                initial_state=init, final_states=finals)
